@@ -26,12 +26,12 @@ package encoding
 //@   property C17
 //@   requires in != nil
 //@   ensures forall(k.(any), implies(inDom(in, k), inDom(result, lang.Repr(k))))
-//@   ensures forall(s.(string), implies(inDom(result, s), exists(k.(any), inDom(in, k) && s == lang.Repr(k) )))
+//@   ensures forall(s.(string), implies(inDom(result, s), exists(k.(any), inDom(in, k) && s == lang.Repr(k) && result[s] == toStringKeyMap(in[k]))))
 //@   modifies nothing
 //@   allocates
 //@   loop 0: modifies mapof(res)
 //@   loop 0: invariant res != nil && forall(k.(any), implies(seen[k], inDom(res, lang.Repr(k))))
-//@   loop 0: invariant forall(s.(string), implies(inDom(res, s), exists(k.(any), seen[k] && s == lang.Repr(k))))
+//@   loop 0: invariant forall(s.(string), implies(inDom(res, s), exists(k.(any), seen[k] && inDom(in, k) && s == lang.Repr(k) && res[s] == toStringKeyMap(in[k]))))
 
 // the YAML converter encodes exactly the normalised document; the TOML converter encodes the decoded document as is
 //@ func YamlToJson
